@@ -82,6 +82,11 @@ def base_dumps():
            R('BSC_getpid', 1, tid=3, ts=37), R('BSC_getpid', 2, (0, 20, 0, 0), tid=3, ts=38)]
     out['v2-rename'] = v2d([(1, 10, 'procA'), (2, 20, 'procB')], 0, ren)
 
+    # 20 records whose timestamps are NOT in file order (per-CPU buffers are merged without sorting): a listing is in file order
+    stamps = [50, 3, 40, 7, 7, 90, 1, 60, 2, 80, 5, 70, 4, 30, 6, 20, 8, 10, 9, 100]
+    unordered = [B.rec(ts, (i, 2, 3, 4), 9, 0x040c000d) for i, ts in enumerate(stamps)]
+    out['v2-unordered'] = v2d([(9, 10, 'procA')], 0, unordered)
+
     def v3d(**kw):
         blob, parts = B.v3_sections(**kw)
         return blob, [(s, e) for (n, s, e) in parts if n.startswith('rec')]
@@ -98,6 +103,7 @@ def base_dumps():
                          filler1=B.STACKSHOT_END[:5], filler2=B.TAG_THREADMAP[:3])
     out['v3-syscalls'] = v3d(threads=[(1, 10, 'procA'), (2, 20, 'procB')], chunks=[syscall_records()[:4], syscall_records()[4:]],
                              blocks=[codes])
+    out['v3-unordered'] = v3d(threads=[(9, 10, 'procA')], chunks=[unordered[:9], unordered[9:]])
     out['v3-nochunks-meta'] = v3d(threads=[], chunks=[[]], blocks=[codes], with8=False)
     return out
 
@@ -263,7 +269,7 @@ class C06(Check):
             'more events than complete records before the cut; reported items do not change afterwards; islice(c) == '
             'first c of the full listing. Distinct by construction; non-trivial = the cut falls strictly inside a record '
             'or inside the header/sections (not at a record boundary or at len).')
-    assumptions = ('base dumps are those of checks/c06.py:base_dumps (0.4-1.3 kB each)',
+    assumptions = ('base dumps are those of checks/c06.py:base_dumps (0.4-1.7 kB each; two of them hold 20 records whose timestamps are not in file order)',
                    'the prefix claim does not demand progress: how many items were reported is recorded, not judged')
 
     def consumers(self, name):
